@@ -259,7 +259,35 @@ fn main() {
     // timer values that carry ids: `Timers::rewrite` clones, so those ids are NOT rewritten. The model follows the
     // code (M only); the orbit oracle is not applied to this stream (see notes/C10.md).
     states::<u8, u8, Id, u8, ()>(&mut out, &mut r, 100 * k, false);
+    timer_id_witness(&mut out);
     out.finish();
+}
+
+/// The witness of `C10_timer_ids_not_rewritten` on the implementation: two actors with states 1 and 0 (the plan
+/// swaps them); actor 0 holds a timer whose VALUE is Id(0). In the representative the timer has moved with its
+/// actor to position 1 but still says Id(0) — the image under the permutation would say Id(1).
+fn timer_id_witness(out: &mut Out) {
+    let mut t0: Timers<Id> = Timers::new();
+    t0.set(Id::from(0));
+    let st: ActorModelState<GA<u8, u8, Id, u8>, ()> = ActorModelState {
+        actor_states: vec![Arc::new(1u8), Arc::new(0u8)],
+        network: Network::new_ordered([]),
+        timers_set: vec![t0, Timers::new()],
+        random_choices: vec![RandomChoices::default(), RandomChoices::default()],
+        crashed: vec![false, false],
+        history: (),
+    };
+    let rep = st.representative();
+    let moved: Vec<usize> = rep.timers_set[1].iter().map(|i| usize::from(*i)).collect();
+    out.m(&format!("repr {} {} {}", <ActorModelState<GA<u8, u8, Id, u8>, ()> as U>::ty(), st.sx(), rep.sx()), "ok");
+    if moved == vec![0] && rep.timers_set[0].iter().count() == 0 {
+        out.stat("timer-id-witness:timer-moved-but-its-id-not-rewritten(as-modelled)");
+    } else if moved == vec![1] {
+        out.stat("timer-id-witness:timer-id-rewritten(code-changed:update-model)");
+    } else {
+        out.v("timer-id-witness", &format!("unexpected representative {}", rep.sx()));
+    }
+    out.sample(&format!("timer-id witness: {} => {}", st.sx(), rep.sx()));
 }
 
 /// `Arc<T>` as a rewritten value (newtype so that `U` can be implemented here)
